@@ -18,6 +18,7 @@ func checkC03(c *Check) {
 	c.updateBodyPrivate("C03.3 delivered-slice-private")
 	c.messageResults("C03.3 delivered-bytes")
 	c.handlerDiscipline("C03.4 handler-discipline")
+	c.notificationEncode("C03.4 notification-sent-verbatim")
 	c.holdTimerDrainAndReset("C03.4 no-spurious-expiry")
 	c.writeUpdateContract("C03.4 handler-not-wedged")
 	c.restartAfterHandler("C03.4 restart-after-handler")
@@ -176,6 +177,17 @@ func (c *Check) handlerDiscipline(rule string) {
 		if _, isDefer := h.(*ssa.Defer); isDefer {
 			okH = false
 		}
+	}
+	// every exit of the session loop comes after OnEstablished: the outer
+	// function delivers OnClose on every exit, so a return before it would be
+	// an OnClose without its OnEstablished
+	if okE {
+		ownInstrs(inner, func(x ssa.Instruction) {
+			if ret, isR := x.(*ssa.Return); isR && !(ret.Block().Index != 0 && len(ret.Block().Preds) == 0) {
+				c.require(instrDominates(est[0].(ssa.Instruction), ret), rule, in, "no exit before OnEstablished", p.InstrPos(ret),
+					"the session loop returns only after OnEstablished was called (OnClose follows every return)")
+			}
+		})
 	}
 	c.require(okH, rule, in, "handler call", p.Pos(inner.Pos()), "the handler invoked is the value OnEstablished returned; it is called synchronously, at one site, inside the loop, after OnEstablished")
 	// handler returns a notification => sent verbatim, session ends
